@@ -106,18 +106,39 @@ class ImplProcessModel(Contract):
         return (SOpaque(pm_s(dtz, state.z, cov.z, c), "St"), SOpaque(pm_c(dtz, state.z, cov.z, c), "Cov"))
 
 
+def refuses_key(key_z):
+    """The wrapped filter refuses readings of some sensors (an unknown key: KeyError) - which ones is a property of the key alone."""
+    return z3.Function("impl_refuses_sensor", key_z.sort(), z3.BoolSort())(key_z)
+
+
+def note_time(I, term, t):
+    """ghost: the time the estimate denoted by `term` is an estimate AT (bookkeeping for the exceptional-exit clause of tick)."""
+    I.path.ghost.setdefault("time_of", {})[term.get_id()] = t
+
+
+def time_of(I, term):
+    return I.path.ghost.get("time_of", {}).get(term.get_id())
+
+
 class ImplSensorModel(Contract):
-    """ASSUMED: the wrapped filter's sensor_model is a pure function SM of its arguments."""
+    """ASSUMED: the wrapped filter's sensor_model is a pure function SM of its arguments, or refuses the sensor key (KeyError)."""
 
     key = "Impl.sensor_model"
     kind = "assumed"
 
     def apply(self, I, args, kwargs):
         st, cov, key, rd = kwargs["state"], kwargs["covariance"], kwargs["sensor_key"], kwargs["sensor_reading"]
+        if I.path.ghost.get("refusals") and I.path.branch(refuses_key(key.z)):
+            I.path.ghost["refused"] = True
+            raise PyRaise("KeyError", "the wrapped filter has no such sensor")
         tr = I.path.ghost.get("calls")
         if tr is not None:
             tr.append(("sm", key.z, rd.z, st.z, cov.z))
-        return (SOpaque(sm_s(key.z, rd.z, st.z, cov.z), "St"), SOpaque(sm_c(key.z, rd.z, st.z, cov.z), "Cov"))
+        out_s, out_c = sm_s(key.z, rd.z, st.z, cov.z), sm_c(key.z, rd.z, st.z, cov.z)
+        for a, b in ((st.z, out_s), (cov.z, out_c)):
+            if time_of(I, a) is not None:
+                note_time(I, b, time_of(I, a))  # an update does not move the estimate in time
+        return (SOpaque(out_s, "St"), SOpaque(out_c, "Cov"))
 
 
 class ImplMakeReading(Contract):
@@ -131,6 +152,9 @@ class ImplMakeReading(Contract):
         kw = kwargs.get("**", [None])[0] if "**" in kwargs else None
         if kw is None:
             raise Unsupported("make_reading without symbolic kwargs")
+        if I.path.ghost.get("refusals") and I.path.branch(refuses_key(key.z)):
+            I.path.ghost["refused"] = True
+            raise PyRaise("KeyError", "the wrapped filter has no such sensor")
         return SOpaque(mr(key.z, kw.z), "ReadingData")
 
 
@@ -292,6 +316,8 @@ class ProcessModelSteps(Contract):
         if calls is not None:
             calls.append(("move", t0, to_real(t1), s0, c0, ctl_z(control)))
         NT = I.module_attr(I.load_module("formak.runtime"), "StateAndVariance")
+        note_time(I, st, to_real(t1))
+        note_time(I, cv, to_real(t1))
         return (t1, NT.make([SOpaque(st, "St"), SOpaque(cv, "Cov")]))
 
 
@@ -372,6 +398,9 @@ class TickFold(Contract):
             obj.fields["current_time"] = SNum(I.path.fresh_real(f"time_{tag}"))
             obj.fields["state"] = SOpaque(I.path.fresh_const(f"state_{tag}", St), "St")
             obj.fields["covariance"] = SOpaque(I.path.fresh_const(f"cov_{tag}", Cov), "Cov")
+            # (invariant held_time/held_state/held_cov: the held estimate is fold(k), an estimate at fold_time(k) = the held time)
+            note_time(I, obj.fields["state"].z, to_real(obj.fields["current_time"]))
+            note_time(I, obj.fields["covariance"].z, to_real(obj.fields["current_time"]))
 
         self.loops = {0: LoopInv(carried={}, inv=inv, extra_havoc=havoc, name="loop0")}
 
@@ -409,6 +438,9 @@ class TickFold(Contract):
         s0, c0 = obj.fields["state"].z, obj.fields["covariance"].z
         t0 = obj.fields["current_time"].z
         fold = FoldSpec(P, t0, s0, c0, max_dt, ctl_z(control), ts, keyf, eff)
+        P.ghost["refusals"] = True
+        note_time(I, s0, to_real(obj.fields["current_time"]))
+        note_time(I, c0, to_real(obj.fields["current_time"]))
         old = dict(obj.fields)
         return Call([obj, SNum(t_out)], {"control": control, "readings": readings}, obj=obj, old=old, fold=fold, n=n, t_out=t_out, max_dt=max_dt, control=control)
 
@@ -418,6 +450,18 @@ class TickFold(Contract):
         obj = call.obj
         cs = to_int(obj.fields["_impl"].fields["control_size"])
         must_refuse = z3.And(z3.BoolVal(self.control_none), cs > 0)
+        if outcome[0] == "raise" and outcome[1] == "KeyError" and P.ghost.get("refused"):
+            # the wrapped filter refused a reading and its exception passes through.  Whatever tick keeps (the estimate moved up to
+            # the refused reading, or the estimate from before), it stays CONSISTENT: the held estimate is an estimate AT the held
+            # time - otherwise the next move (C10) covers the wrong interval
+            st, cv = obj.fields.get("state"), obj.fields.get("covariance")
+            for nm, v in (("state", st), ("covariance", cv)):
+                tv = time_of(I, v.z) if isinstance(v, SOpaque) else None
+                if tv is not None:
+                    P.oblige(f"{pre}.refused_reading.held_time_is_the_time_of_the_held_{nm}", to_real(obj.fields["current_time"]) == tv)
+            for fld in ("_impl", "calibration_map"):
+                P.oblige(f"{pre}.refused_reading.frame.{fld}", z3.BoolVal(obj.fields.get(fld) is call.old[fld]))
+            return
         if outcome[0] == "raise":
             P.oblige(f"{pre}.control_required.only_typeerror", z3.BoolVal(outcome[1] == "TypeError"), note=f"raises {outcome[1]}")
             P.oblige(f"{pre}.control_required.raises_only_if", must_refuse)
